@@ -231,6 +231,8 @@ func init() {
 			m.cfg.MaxPreempt = v
 		case "max_threads":
 			m.cfg.MaxThreads = v
+		case "sched_fixed":
+			m.cfg.SchedFixed = v != 0
 		case "max_decisions":
 			m.cfg.MaxDecisions = v
 		case "max_concretize":
@@ -315,6 +317,18 @@ func (m *Machine) assertProp(label string, c Value) {
 		panic(pathEnd{kind: "violation", msg: label})
 	case *Term:
 		r, mo := m.check(m.tf.Not(cv))
+		if sh := m.solver.shadow; sh != nil && (r == "sat" || r == "unsat") {
+			r2, _ := sh.Check(m.tf.Not(cv), false)
+			switch {
+			case r2 == r:
+				m.solver.stats.CrossAgree++
+			case r2 == "sat" || r2 == "unsat":
+				m.solver.stats.CrossDisagree++
+				r = "unknown"
+			default:
+				m.solver.stats.CrossUnknown++
+			}
+		}
 		switch r {
 		case "unsat":
 			m.res.Proved[label]++
